@@ -140,6 +140,19 @@ def r2_classifier_agreement(ctx):
     sites = classification_sites(F, b)
     single = [(c, k) for c, k in classification_sites(F, sbody) if enclosing_loop_next(sbody, c.bb) is None]
     elem = [(c, k) for c, k in sites if enclosing_loop_next(b, c.bb) is not None]
+    loop_form = bool(elem)
+    if not elem:
+        # `entries.into_iter().map(|e| classify(e)).collect()`: the element code is the closure handed to Iterator::map
+        for x in F.nested(b):
+            if x is b:
+                continue
+            s2 = classification_sites(F, x)
+            mapped = [c for c in b.calls_to(r"iter::Iterator::map$|Iterator>::map$") if any(l.kind == "closure" and l.detail.get("def") == x.path for a in c.args[1:2] for l in tr.origins(b, a))]
+            if s2 and mapped:
+                elem = s2
+                b = x
+                R.fn(x)
+                break
     so = [k for c, k in sorted(single, key=lambda x: len(sbody.dom[x[0].bb]))]
     eo = [k for c, k in sorted(elem, key=lambda x: len(b.dom[x[0].bb]))]
     R.check(so == eo == ["call", "notif", "invalid"], "C02.R2", "classifier-lists-agree", "batch entries are classified like single messages (Request, Notification, id recovery)", "a single message is classified %s but a batch entry %s" % (so, eo), "%s:%d" % (b.file, b.lo))
@@ -151,6 +164,8 @@ def r2_classifier_agreement(ctx):
                 l2 = tr.origins(b, l.detail["args"][0])
                 if any("next" in " ".join(x.chain) or (x.kind == "call" and re.search(r"::next$", x.detail["callee"] or "")) for x in l2):
                     ok = True
+                if not loop_form and any(x.kind == "param" and x.detail.get("idx", 0) >= 2 for x in l2):
+                    ok = True   # the closure's own argument is the element
         R.check(ok, "C02.R2", "element:%s:input" % k, "the %s attempt parses the loop element" % k, "the %s attempt of a batch entry does not parse that entry: %s" % (k, [flow.leaf_str(l) for l in lv]), where(c))
     ee = sorted(elem, key=lambda x: len(b.dom[x[0].bb]))
     for (c1, k1), (c2, k2) in zip(ee, ee[1:]):
@@ -159,12 +174,14 @@ def r2_classifier_agreement(ctx):
             err_t = arms.get("1", other if "0" in arms else None)
         R.check(err_t is not None and b.dominates(err_t, c2.bb), "C02.R2", "element:%s-then-%s" % (k1, k2), "%s attempt only after the %s attempt failed" % (k2, k1), "the %s attempt of a batch entry is not confined to the failure arm of the %s attempt" % (k2, k1), where(c2))
     # each classification pushes exactly one entry of the right kind
-    pushes = b.calls_to(r"^std::vec::Vec::<.*>::push$")
+    pushes = b.calls_to(r"^std::vec::Vec::<.*>::push$") if loop_form else [None]
     kinds = {}
     for p in pushes:
-        if enclosing_loop_next(b, p.bb) is None:
+        if p is not None and enclosing_loop_next(b, p.bb) is None:
             continue
-        lv = tr.origins(b, p.args[1])
+        lv = tr.origins(b, p.args[1]) if p is not None else tr.origins(b, {"cp": {"l": 0}})
+        if p is None:
+            p = b.calls[0]
         for l in lv:
             if l.kind == "agg":
                 wb = F.bodies[l.where]
